@@ -27,6 +27,67 @@ def selector(fn):
     return sig, keccak256(sig.encode())[:4]
 
 
+def is_dyn(t):
+    ty = t["type"]
+    if ty in ("string", "bytes") or ty.endswith("[]"):
+        return True
+    if ty.startswith("tuple"):
+        return any(is_dyn(c) for c in t["components"])
+    return False
+
+
+def static_size(t):
+    if t["type"] == "tuple":
+        return sum(static_size(c) for c in t["components"])
+    return 32
+
+
+def canonical_layout(inputs, length_of):
+    """Word offsets of the canonical ABI encoding of the arguments that hold offsets, string/bytes lengths and array counts
+    (the data words stay symbolic). length_of(i): length chosen for the i-th dynamic leaf. Returns ({offset: value}, size)."""
+    fixed = {}
+    counter = [0]
+
+    def enc_tuple(types, base):
+        head = sum(32 if is_dyn(t) else static_size(t) for t in types)
+        tail = head
+        pos = 0
+        for t in types:
+            if is_dyn(t):
+                fixed[base + pos] = tail
+                tail += enc_dyn(t, base + tail)
+                pos += 32
+            else:
+                pos += static_size(t)
+        return tail
+
+    def enc_dyn(t, base):
+        ty = t["type"]
+        if ty in ("string", "bytes"):
+            n = length_of(counter[0])
+            counter[0] += 1
+            fixed[base] = n
+            return 32 + (n + 31) // 32 * 32
+        if ty.endswith("[]"):
+            n = min(length_of(counter[0]), 2)
+            counter[0] += 1
+            fixed[base] = n
+            el = dict(t)
+            el["type"] = ty[:-2]
+            return 32 + enc_tuple([el] * n, base + 32)
+        return enc_tuple(t["components"], base)
+
+    size = enc_tuple(inputs, 4)
+    return fixed, 4 + size
+
+
+def layouts(inputs):
+    """The bounded family of call-data layouts for methods whose arguments are decoded into memory before the guard."""
+    fams = [("every dynamic field of length %d" % n, (lambda n: (lambda i: n))(n)) for n in (0, 1, 32, 33)]
+    fams.append(("dynamic fields of lengths 33,0,1,32,... in turn", lambda i: (33, 0, 1, 32)[i % 4]))
+    return fams
+
+
 def load_contract(repo, rel):
     d = json.load(open(os.path.join(repo, rel)))
     abi = json.loads(d["abi"]) if isinstance(d["abi"], str) else d["abi"]
@@ -53,21 +114,34 @@ PRIVILEGED = {
         "enableTimeBasedSupplyLimit": ["aggregateModule"],
         "disableTimeBasedSupplyLimit": ["aggregateModule"],
     },
-    "syscontracts/xibc_endpoint/Execute.json": {
-        "execute": ["endpointContract", "packetContract"],
-    },
 }
 
 
-def check_method(code, sel, allowed_addrs, tier, name):
-    eng = Engine(code, name=name, max_paths=3000 if tier == "quick" else 20000, unwind=4 if tier == "quick" else 8)
+# methods whose (struct) arguments are copied into memory before the caller is tested: with arbitrary call data the decoder's
+# pointer arithmetic is beyond the solver budget, so these are explored over a bounded family of canonical layouts
+DECODED_FIRST = {
+    ("syscontracts/xibc_packet/packet.json", "onRecvPacket"),
+    ("syscontracts/xibc_packet/packet.json", "OnAcknowledgePacket"),
+    ("syscontracts/xibc_packet/packet.json", "sendPacket"),
+    ("syscontracts/xibc_endpoint/Endpoint.json", "onAcknowledgementPacket"),
+}
+
+
+def check_method(code, sel, allowed_addrs, tier, name, fixed=None, shape="arbitrary call data"):
+    eng = Engine(code, name=name, max_paths=3000 if tier == "quick" else 20000, unwind=24 if fixed else (4 if tier == "quick" else 8))
+    eng.stop_on_success = True            # a non-reverting path is a counterexample: no need to explore the rest
+    eng.budget_s = 30 if tier == "quick" else 600
     lit = z3.Bool("caller-is-not-privileged")
     eng.assume_lit = lit
     not_allowed = z3.And(*[eng.caller != bv(a) for a in allowed_addrs])
     eng.s.add(z3.Implies(lit, not_allowed))
-    init = [z3.UGE(eng.cdsize, bv(4))] + [z3.Select(eng.cd, bv(i)) == z3.BitVecVal(sel[i], 8) for i in range(4)]
+    init = [z3.UGE(eng.cdsize, bv(4)), z3.Extract(255, 224, eng.cdw(bv(0))) == z3.BitVecVal(int.from_bytes(sel, "big"), 32)]
+    if fixed:
+        for o, v in fixed.items():
+            init.append(eng.cdw(bv(o)) == bv(v))
+            eng.cd_fixed[o] = v
     t0 = time.time()
-    res = {"method": name, "selector": sel.hex(), "allowed": [hex(a) for a in allowed_addrs]}
+    res = {"method": name, "selector": sel.hex(), "allowed": [hex(a) for a in allowed_addrs], "shape": shape}
     try:
         paths = eng.run(init)
     except Inconclusive as e:
@@ -78,15 +152,24 @@ def check_method(code, sel, allowed_addrs, tier, name):
         ends[p.end] = ends.get(p.end, 0) + 1
     res.update(paths=len(paths), ends=ends, queries=eng.queries, solver_s=round(eng.solver_time, 2), wall_s=round(time.time() - t0, 2),
                steps=eng.steps, guards=sorted(set(g[0] for g in eng.guards)), bound_hits=sorted(set(eng.bound_hits))[:5])
-    bad = [p for p in paths if p.end in ("STOP", "RETURN", "SELFDESTRUCT")]
+    cand = [p for p in paths if p.end in ("STOP", "RETURN", "SELFDESTRUCT")]
+    bad = []
+    try:
+        for p in cand:
+            # branches were followed on a short solver budget: decide the terminal path with the full one
+            if eng.feasible(p.cons, fast=False):
+                bad.append(p)
+                break
+    except Inconclusive as e:
+        res.update(verdict="inconclusive", reason="a non-reverting path could not be decided: " + str(e))
+        return res, None
+    res["kept_on_unknown"] = eng.kept_unknown
     cex = None
     if bad:
         p = bad[0]
         m = eng.model(p.cons)
         if m is not None:
-            size = m.eval(eng.cdsize, model_completion=True).as_long()
-            size = min(size, 4096)
-            data = bytes(m.eval(z3.Select(eng.cd, bv(i)), model_completion=True).as_long() for i in range(size))
+            data = calldata_from_model(m, eng)
             cex = {"method": name, "caller": "0x%040x" % m.eval(eng.caller, model_completion=True).as_long(),
                    "callvalue": hex(m.eval(eng.callvalue, model_completion=True).as_long()), "calldata": data.hex(),
                    "ends": p.end, "sstores": len(p.sstores), "calls": len(p.calls), "logs": len(p.logs),
@@ -102,6 +185,35 @@ def check_method(code, sel, allowed_addrs, tier, name):
     else:
         res["verdict"] = "held"
     return res, cex
+
+
+def calldata_from_model(m, eng):
+    """Assemble one byte string from the model of the call-data read functions (word reads, byte reads, fixed layout words)."""
+    size = min(m.eval(eng.cdsize, model_completion=True).as_long(), 4096)
+    buf = bytearray(max(size, 4))
+    def put(off, bs):
+        nonlocal buf
+        if off + len(bs) > 4096:
+            return
+        if off + len(bs) > len(buf):
+            buf.extend(b"\0" * (off + len(bs) - len(buf)))
+        buf[off:off + len(bs)] = bs
+    for f, width in ((eng.cdb, 1), (eng.cdw, 32)):
+        try:
+            fi = m[f]
+            if isinstance(fi, z3.FuncInterp):
+                for i in range(fi.num_entries()):
+                    e = fi.entry(i)
+                    put(e.arg_value(0).as_long(), e.value().as_long().to_bytes(width, "big"))
+        except z3.Z3Exception:
+            pass
+    for o in eng.cd_reads.values():
+        ov = m.eval(o, model_completion=True).as_long()
+        put(ov, m.eval(eng.cdw(o), model_completion=True).as_long().to_bytes(32, "big"))
+    for o, v in eng.cd_fixed.items():
+        put(o, v.to_bytes(32, "big"))
+    put(0, m.eval(eng.cdw(bv(0)), model_completion=True).as_long().to_bytes(32, "big")[:4])
+    return bytes(buf)
 
 
 def storage_model(m, eng, p):
@@ -139,14 +251,23 @@ def main():
                 results.append({"contract": rel, "method": mname, "verdict": "inconclusive", "reason": "method not in the ABI"})
                 continue
             sig, sel = selector(fns[mname])
-            res, cex = check_method(code, sel, [A[w] for w in who], tier, sig)
-            res["contract"] = rel
-            res["code_bytes"] = len(code)
-            res["allowed_names"] = who
-            results.append(res)
-            if cex:
-                cex["contract"] = rel
-                cexs.append(cex)
+            runs = [(None, "arbitrary call data")]
+            if (rel, mname) in DECODED_FIRST:
+                runs = []
+                for desc, fn in layouts(fns[mname]["inputs"]):
+                    fixed, size = canonical_layout(fns[mname]["inputs"], fn)
+                    runs.append((fixed, "canonical ABI layout, " + desc))
+            for fixed, shape in runs:
+                print("evmsym guards:", rel.split("/")[-1], sig[:40], "|", shape, file=sys.stderr, flush=True)
+                res, cex = check_method(code, sel, [A[w] for w in who], tier, sig, fixed, shape)
+                res["contract"] = rel
+                res["code_bytes"] = len(code)
+                res["allowed_names"] = who
+                results.append(res)
+                if cex:
+                    cex["contract"] = rel
+                    cex["shape"] = shape
+                    cexs.append(cex)
     json.dump({"results": results, "counterexamples": cexs}, sys.stdout, indent=1)
 
 
